@@ -35,6 +35,10 @@ T  == Traces[tid]
 Ev == T.ev[l]
 
 NoLimits(f, e) == {}
+(* charset labels found in the body, classified by the trusted decoder (CPython codecs.lookup) *)
+JCharsetClass(lab) ==
+    LET I == {i \in 1..Len(Traces[tid].charsets) : Traces[tid].charsets[i].l = lab}
+    IN  IF I = {} THEN "other" ELSE Traces[tid].charsets[CHOOSE i \in I : TRUE].c
 
 JInit ==
     /\ tid \in 1..Len(Traces) /\ l = 1 /\ verdict = "ok" /\ dnote = 0 /\ everr = FALSE
@@ -59,7 +63,8 @@ JudgeNext(x, e, y) ==      \* y: number of parts yielded including this one
     ELSE IF x.out # "error" /\ e.out = "error" THEN ErrClause(e.why)
     ELSE IF x.out # e.out THEN "P:parts"
     ELSE IF x.out = "part" /\ x.name # UNKNOWN /\ e.name # x.name THEN "P:name"
-    ELSE IF x.out = "part" /\ x.fname # UNKNOWN /\ e.fname # x.fname THEN "P:filename"
+    ELSE IF x.out = "part" /\ x.fname # UNKNOWN /\ ~IsLax(x.fname) /\ e.fname # x.fname THEN "P:filename"
+    ELSE IF x.out = "part" /\ IsLax(x.fname) /\ e.fname # Tail(x.fname) /\ e.fname # PERR THEN "P:filename"
     ELSE IF x.out = "part" /\ x.ctype # UNKNOWN /\ e.ctype # x.ctype THEN "P:ctype"
     ELSE "ok"
 
